@@ -278,6 +278,9 @@ def replay_h_hive_bool_and_two_columns(x, i_n, s):
 SMALL = ["1", "a", "0"]
 
 
+PNAMES = os.environ.get("VERIF_PNAMES", "p,q").split(",")      # names of the two partition columns (lattice)
+
+
 def h_hive_two_levels(i1: int, i2: int, j1: int, j2: int, with_meta: bool, rev: bool) -> bool:
     """
     pre: 0 <= i1 < 2 and 0 <= i2 < 2 and 0 <= j1 < 3 and 0 <= j2 < 3
@@ -294,19 +297,19 @@ def h_hive_two_levels(i1: int, i2: int, j1: int, j2: int, with_meta: bool, rev: 
     util.np = _NPu
     api._strip_path_tail = lambda paths: sorted(saved_strip(paths), reverse=bool(rev))
     try:
-        paths, opened, dirs = _written_paths(["p", "q"], [(a1, b1), (a2, b2)], True)
-        meta = {"p": dict(META["str"], field_name="p"), "q": dict(META["str"], field_name="q")} if with_meta else None
+        paths, opened, dirs = _written_paths(list(PNAMES), [(a1, b1), (a2, b2)], True)
+        meta = {PNAMES[0]: dict(META["str"], field_name=PNAMES[0]), PNAMES[1]: dict(META["str"], field_name=PNAMES[1])} if with_meta else None
         scheme, cats = api.paths_to_cats(paths, meta)
-        if scheme != "hive" or list(cats) != ["p", "q"] or len(set(paths)) != 2:
+        if scheme != "hive" or list(cats) != list(PNAMES) or len(set(paths)) != 2:
             return False
-        if sorted(str(x) for x in cats["p"]) != sorted(set([a1, a2])):
+        if sorted(str(x) for x in cats[PNAMES[0]]) != sorted(set([a1, a2])):
             return False
-        if sorted(str(x) for x in cats["q"]) != sorted(set([b1, b2])):
+        if sorted(str(x) for x in cats[PNAMES[1]]) != sorted(set([b1, b2])):
             return False
-        return (str(_read_back(paths[0], cats, "p", scheme, meta)) == a1 and
-                str(_read_back(paths[0], cats, "q", scheme, meta)) == b1 and
-                str(_read_back(paths[1], cats, "p", scheme, meta)) == a2 and
-                str(_read_back(paths[1], cats, "q", scheme, meta)) == b2)
+        return (str(_read_back(paths[0], cats, PNAMES[0], scheme, meta)) == a1 and
+                str(_read_back(paths[0], cats, PNAMES[1], scheme, meta)) == b1 and
+                str(_read_back(paths[1], cats, PNAMES[0], scheme, meta)) == a2 and
+                str(_read_back(paths[1], cats, PNAMES[1], scheme, meta)) == b2)
     finally:
         util.np = saved
         api._strip_path_tail = saved_strip
@@ -343,14 +346,14 @@ def _replay_two_levels(i1, i2, j1, j2, with_meta):
     try:
         # one plain file per directory, opened as a list (no pandas partition metadata) or written as a hive dataset
         if with_meta:
-            df = pd.DataFrame({"p": [r[0] for r in rows], "q": [r[1] for r in rows], "v": [0, 1]})
+            df = pd.DataFrame({PNAMES[0]: [r[0] for r in rows], PNAMES[1]: [r[1] for r in rows], "v": [0, 1]})
             dn = os.path.join(d, "ds")
-            fastparquet.write(dn, df, file_scheme="hive", partition_on=["p", "q"])
+            fastparquet.write(dn, df, file_scheme="hive", partition_on=list(PNAMES))
             src = dn
         else:
             src = []
             for k, (a, b) in enumerate(rows):
-                dd = os.path.join(d, "p=%s" % a, "q=%s" % b)
+                dd = os.path.join(d, "%s=%s" % (PNAMES[0], a), "%s=%s" % (PNAMES[1], b))
                 os.makedirs(dd, exist_ok=True)
                 fn = os.path.join(dd, "part.%d.parquet" % k)
                 fastparquet.write(fn, pd.DataFrame({"v": [k]}))
@@ -359,11 +362,11 @@ def _replay_two_levels(i1, i2, j1, j2, with_meta):
             out = fastparquet.ParquetFile(src).to_pandas()
         except Exception as ex:
             return True, "partition directories %r cannot be read back: %s: %s" % (rows, type(ex).__name__, str(ex)[:80])
-        missing = [c for c in ("p", "q") if c not in out.columns]
+        missing = [c for c in PNAMES if c not in out.columns]
         if missing:
             return True, "partition levels %r: column(s) %r missing from the read (columns %r)" % (
                 rows, missing, list(out.columns))
-        got = sorted((int(v), str(a), str(b)) for v, a, b in zip(out["v"], out["p"], out["q"]))
+        got = sorted((int(v), str(a), str(b)) for v, a, b in zip(out["v"], out[PNAMES[0]], out[PNAMES[1]]))
         want = sorted((k, a, b) for k, (a, b) in enumerate(rows))
         if got != want:
             return True, "partition levels %r come back as %r" % (want, got)
